@@ -165,6 +165,11 @@ def inject(case):
             B[-1]["stmts"] = [_call("p1")]
             spec["rels"] += [["conf", "p0", "p1", "L"], ["conf", "c1", "c0", "L"]]
             label += ":lifted_from_methods"
+        if (v2 // 4) % 2:
+            # two transactions of the cycle sit in different alternatives of one top-level If: they can never run
+            # together (no conflict to arbitrate), but their declared priorities are cyclic all the same
+            spec.setdefault("tops", []).append({"t": "if", "alts": [["c0"], ["c1"]], "else": bool(v2 & 8)})
+            label += ":exclusive_leg"
         return spec, "raise", label
     if kind == "single_caller":
         B.insert(0, _m("s0", single=True))
